@@ -439,7 +439,8 @@ REGISTRY = {
     "equalize_voxel_size": (lambda p, o: darsia.equalize_voxel_size(p[o["a"]], **({"voxel_size": o["vs"]} if o.get("vs") else {})), ("a",)),
     "uniform_refinement": (lambda p, o: darsia.uniform_refinement(p[o["a"]], o["levels"]), ("a",)),
     "reduce_axis": (lambda p, o: darsia.reduce_axis(p[o["a"]], o["axis"], o["mode"], **({"slice_idx": 0} if o["mode"] == "slice" else {})), ("a",)),
-    "AxisReduction": (lambda p, o: darsia.AxisReduction(o["axis"], dim=p[o["a"]].space_dim, mode=o["mode"])(p[o["a"]]), ("a",)),
+    "AxisReduction": (lambda p, o: darsia.AxisReduction(o["axis"], dim=p[o["a"]].space_dim, mode=o["mode"],
+                                                        **({"slice_idx": 0} if o["mode"] == "slice" else {}))(p[o["a"]]), ("a",)),
     "extrude_along_axis": (lambda p, o: darsia.extrude_along_axis(p[o["a"]], o["h"], o["n"]), ("a",)),
     "zeros_like": (lambda p, o: darsia.zeros_like(p[o["a"]], mode=o["mode"], dtype=NP_DT.get(o.get("t"))), ("a",)),
     "ones_like": (lambda p, o: darsia.ones_like(p[o["a"]], mode=o["mode"], dtype=NP_DT.get(o.get("t"))), ("a",)),
@@ -757,15 +758,18 @@ class C17Engine(Engine):
             desc[out] = {**desc[a], "series": hi - lo}
             return {"op": "time_interval", "a": a, "lo": lo, "hi": hi, "out": out}
         if kind == "slice":
-            a = self._pick(r, desc, lambda d: d["dim"] == 3 and d["shape"] is not None)
+            # integer images make slice raise (in-place division inside reduce_axis): prefer float operands
+            a = (self._pick(r, desc, lambda d: d["dim"] == 3 and d["shape"] is not None and d["dtype"] in ("float32", "float64"))
+                 if r.random() < 0.85 else None) or self._pick(r, desc, lambda d: d["dim"] == 3 and d["shape"] is not None)
             if a is None:
                 return None
             ax = r.randint(0, 2)
             sh = list(desc[a]["shape"])
             cut = r.randint(0, sh[ax] - 1)
             sh.pop(ax)
-            if r.random() < 0.3:
-                # Cartesian axis name and a physical coordinate instead of a matrix axis and a voxel index
+            if r.random() < 0.06:
+                # Cartesian axis name and a physical coordinate instead of a matrix axis and a voxel index (the library
+                # raises AssertionError for every such call at present - kept rare, see probe organic-raise)
                 desc[out] = {**desc[a], "dim": 2, "shape": None, "fam": False}
                 return {"op": "slice", "a": a, "cut": 0.25, "axis": r.choice(["x", "y", "z"]), "out": out}
             desc[out] = {**desc[a], "dim": 2, "shape": sh, "fam": False}
@@ -795,6 +799,11 @@ class C17Engine(Engine):
                 return None
             k = r.randint(2, min(3, len(members)))
             chosen = r.sample(members, k)
+            if kind == "superpose" and r.random() < 0.8:
+                # superpose asserts one class and one original dtype for all members: mostly hand it such lists
+                same = [n for n in members if (desc[n].get("cls"), desc[n].get("dtype")) == (desc[chosen[0]].get("cls"), desc[chosen[0]].get("dtype"))]
+                if len(same) >= 2:
+                    chosen = [chosen[0]] + r.sample([n for n in same if n != chosen[0]], min(k - 1, len(same) - 1))
             if kind == "stack":
                 chosen.sort(key=lambda n: (desc[n].get("order", 0), n))
                 if r.random() < 0.4:
@@ -1045,6 +1054,8 @@ class C17Engine(Engine):
                     used_before.setdefault(o, []).append(step)
                 if exc is not None:
                     out.counters["probe:raised(" + exc + ")"] += 1
+                    if not (dep and dep[3].fired):
+                        out.counters[f"probe:organic-raise({label}:{exc})"] += 1  # calls that claim nothing: watch the share per call form
                     if changed:
                         out.counters["probe:raising-call-modified-arguments"] += 1
                     if form in ("mul", "rmul") and self._in_E_domain(pool, op) and not (dep and dep[3].fired):
